@@ -607,7 +607,7 @@ func genRich(r *hx.Rand, idx int, seed int64) *Scenario {
 var _ httpx.Requestor = urlRequestor{}
 
 func runRich(o *hx.Opts, rnd *hx.Rand, res *hx.Result) {
-	n := o.Count(400, 15000)
+	n := o.Count(300, 15000)
 	for i := 0; i < n; i++ {
 		r := rnd.Fork(fmt.Sprintf("rich%d", i))
 		var sc *Scenario
